@@ -1,7 +1,7 @@
 """C01 - seeded word generators equal the published algorithms, for every seed and history."""
 from . import common as C
 
-LEAN_MODULE = "Urandom.Props.C01"
+LEAN_MODULE = ["Urandom.Props.C01", "Urandom.Props.C01T"]
 
 
 def disagreement_is_failing(req, impl, model):
@@ -14,7 +14,12 @@ RULE = ("requests: generator x (seed | injected 256-bit state) x constructor pat
         "random op history over {u32,u64,f32,f64,fill:n,jump,clone,split} (length 0..60, fill lengths clustered at 0..17 and larger); "
         "SplitMix64 / Wyrand additionally from seeds computed backwards so that the state at a draw is a structured word (zero / all-ones 32-bit halves, single bits, the source's constants xor such words); "
         "every output and the final state are compared with the Lean model. non-trivial = history contains at least one op; distinct = distinct request line")
-TRUSTED = ["Spec/Published.lean is a transcription of Vigna's splitmix64.c / xoshiro256plusplus.c / xoshiro256plus.c and wyhash's wyrand (anchored by published known-answer vectors)"]
+TRUSTED = ["the scalar cores (mix64 / next / jump of SplitMix64; rapid_mum / rapid_mix / wyrand / jump of Wyrand; advance / next_plusplus / next_plus / jump of "
+           "Xoshiro256; rng_f32 / rng_f64) are TRANSLATED from the current source on every run (tools/extract_scalar.py -> Generated/Scalar.lean) and the model is proved "
+           "equal to the translation (Props/C01T.lean); trusted there: the translator's reading of the Rust subset those functions use (wrapping arithmetic, shifts, "
+           "rotates, casts between unsigned widths, &mut parameters as extra results, counted loops as folds). The Rng impls, from_seed and rng_fill_bytes around them are "
+           "hand-modelled and tied by the correspondence",
+           "Spec/Published.lean is a transcription of Vigna's splitmix64.c / xoshiro256plusplus.c / xoshiro256plus.c and wyhash's wyrand (anchored by published known-answer vectors)"]
 ASSUMPTIONS = ["64-bit little-endian target only"]
 
 OPS = ["u32", "u64", "f32", "f64", "fill", "jump", "clone", "split"]
